@@ -696,7 +696,7 @@ func extOf(format string) string { return "." + format }
 func run(c *core.Ctx) {
 	docs := corpus.All()
 	// (i) pairs
-	for _, d := range docs {
+	for _, d := range append(append([]corpus.Doc{}, docs...), corpus.Large()...) {
 		if !d.Valid {
 			continue
 		}
